@@ -51,6 +51,13 @@ def _match_where(where, sig):
     return True
 
 
+def emit(line):
+    """Verdict lines go to the process's ORIGINAL stdout: a stray redirect of
+    sys.stdout inside a driver must never swallow a VIOLATION line."""
+    sys.__stdout__.write(line + "\n")
+    sys.__stdout__.flush()
+
+
 class Ctx:
     def __init__(self, prop, tier, seed, level="model_checking"):
         self.prop = prop
@@ -216,14 +223,14 @@ class Ctx:
             with open(path, "w") as f:
                 f.write(blob)
             lines.append("VIOLATION property=%s replay=%s" % (self.prop, path))
-            print("  clause=%s cases=%d first=%s" % (clause, len(items), json.dumps(sig, default=str)[:300]))
+            emit("  clause=%s cases=%d first=%s" % (clause, len(items), json.dumps(sig, default=str)[:300]))
         cov["violating_clauses"] = {c: len(i) for c, i in by_clause.items()}
         for f in self.findings:
             if f["status"] == "known" and f["id"] in self.known_hits:
-                print("KNOWN-FINDING: property=%s %s [%s; %d case(s) this run]" % (
+                emit("KNOWN-FINDING: property=%s %s [%s; %d case(s) this run]" % (
                     self.prop, f["description"], f["id"], self.known_hits[f["id"]]))
         for d in self.drift[:10]:
-            print("DRIFT property=%s %s %s" % (self.prop, d["clause"], json.dumps(d["detail"], default=str)[:200]))
+            emit("DRIFT property=%s %s %s" % (self.prop, d["clause"], json.dumps(d["detail"], default=str)[:200]))
         ev = {
             "property_id": self.prop, "tier": self.tier, "seed": self.seed,
             "level": self.level, "coverage": cov, "assumptions": self.assumptions,
@@ -233,8 +240,8 @@ class Ctx:
         with open(os.path.join(EVIDENCE_DIR, self.prop + ".json"), "w") as f:
             json.dump(ev, f, indent=1, default=str)
         for l in lines:
-            print(l)
-        print("%s %s tier=%s seed=%d: evaluations=%d distinct_nontrivial=%d states=%d traces=%d violations=%d known=%d wall=%.1fs" % (
+            emit(l)
+        emit("%s %s tier=%s seed=%d: evaluations=%d distinct_nontrivial=%d states=%d traces=%d violations=%d known=%d wall=%.1fs" % (
             "FAIL" if lines else "PASS", self.prop, self.tier, self.seed, cov["evaluations"],
             cov["distinct_nontrivial"], cov["states"], cov["traces_validated_against_impl"],
             len(self.violations), sum(self.known_hits.values()), wall))
